@@ -101,6 +101,9 @@ struct Arch {
     steer: Vec<u64>,
     leaf_section: (u64, u64),
     has_leaves: bool,
+    /// a different archive with the same ids and the same layout (equal section offsets and lengths, other tile bytes and
+    /// other entry lengths): it is opened with the same range right before some of the partial opens
+    sibling: Option<Vec<u8>>,
     /// the tile data section (stored last) is cut off right behind its first bytes: opens stay possible, lookups do not
     truncated: bool,
 }
@@ -183,6 +186,7 @@ fn archives(ctx: &Ctx, i: u64) -> Arch {
         let (steer, leaf_section, has_leaves) = steer_points(&f.bytes, &mut rng);
         let truncated = i % 8 == 6 && truncate_tile_data(&mut f.bytes);
         Arch {
+            sibling: None,
             label: format!("foreign {} entries={} leaves={}{}", f.layout, f.entries.len(), f.n_leaves, if truncated { " (tile data cut off)" } else { "" }),
             bytes: f.bytes,
             steer,
@@ -199,13 +203,36 @@ fn archives(ctx: &Ctx, i: u64) -> Arch {
             _ => SizeClass::Small,
         };
         let mut l = gen::gen_logical(&mut rng, class, codec);
+        if i % 20 == 11 || i % 20 == 19 {
+            // tile ids beyond the last z/x/y-addressable id (add_tile takes any u64): open-ended ranges must reach them
+            let dom = gen::id_domain();
+            let c = std::rc::Rc::new(vec![0xD1u8, 0xD2, 0xD3]);
+            for id in [dom - 1, dom, dom + 1, 1u64 << 62, 1u64 << 63, u64::MAX - 4, u64::MAX - 3] {
+                l.tiles.insert(id, c.clone());
+            }
+            l.class.push_str("/ids-beyond-zoom-31");
+        }
         if l.meta.len() > 8 || serde_json::to_string(&l.meta).map_or(0, |s| s.len()) > 4096 {
             l.meta = gen::json_object(&mut rng, 3, 5);
         }
         let mut bytes = write_sync(l.build()).expect("write");
         let (steer, leaf_section, has_leaves) = steer_points(&bytes, &mut rng);
         let truncated = i % 8 == 7 && truncate_tile_data(&mut bytes);
+        let sibling = if codec == R::C_NONE && !truncated {
+            // same ids, every content one byte longer and different: identical directory layout without a codec as long as the
+            // lengths keep their varint widths
+            let mut s = l.clone();
+            for c in s.tiles.values_mut() {
+                let mut v: Vec<u8> = c.iter().map(|b| b ^ 0x5A).collect();
+                v.push(0x5A);
+                *c = std::rc::Rc::new(v);
+            }
+            write_sync(s.build()).ok().filter(|sb| R::header_unpack(sb).ok().map(|h| (h.root_length, h.leaf_offset, h.leaf_length)) == R::header_unpack(&bytes).ok().map(|h| (h.root_length, h.leaf_offset, h.leaf_length)))
+        } else {
+            None
+        };
         Arch {
+            sibling,
             label: format!("library-written {} codec={}{}", l.class, R::codec_name(codec), if truncated { " (tile data cut off)" } else { "" }),
             bytes,
             steer,
@@ -341,6 +368,11 @@ pub fn run(ctx: &mut Ctx) {
             let sample_ids = |pm_ids: Vec<u64>| -> Vec<u64> { pm_ids };
             // entry point rotates; every range goes through from_bytes_partially
             let r2 = *r;
+            if let (Some(sb), true) = (&a.sibling, ri % 3 == 0) {
+                // another archive with the same layout, opened with the same range on this thread right before
+                let _ = guard(|| PMTiles::from_bytes_partially(sb.clone(), r2).map(|p| p.num_tiles()));
+                ctx.count("partial_opens_preceded_by_a_sibling_archive");
+            }
             let bytes = a.bytes.clone();
             let cache_has = |id: &u64| cache.contains_key(id);
             let got = guard(|| {
